@@ -54,6 +54,12 @@ def main(argv=None):
     anchors = linecov.parse_anchors(a.prop, a.verif)
     lc = linecov.LineCov(a.repo, anchors)
     lc.start()
+    ac = None
+    if os.environ.get("VERIF_ARGCOV"):
+        from rv import argcov
+
+        ac = argcov.ArgCov(a.repo, list(anchors))
+        ac.start()
     fatal = None
     try:
         if a.replay:
@@ -93,6 +99,10 @@ def main(argv=None):
                 fin(ctx)
     finally:
         lc.stop()
+        if ac is not None:
+            ac.stop()
+            with open(a.out + ".argcov", "w") as f:
+                json.dump(ac.result(), f)
     res = ctx.result()
     res["lines_hit"] = lc.result()
     res["fatal"] = fatal
